@@ -59,4 +59,16 @@ def knownExcluded (r : Route) (d : Dtype) (q : Bool) : Bool :=
   (r == .toEquivalent && ((d.isInt && d.size != 8) || d == ⟨.f, 2⟩ || d == ⟨.f, 4⟩ || d == ⟨.c, 8⟩))
   || (r == .toValue && q && (d == ⟨.c, 32⟩ || d == ⟨.f, 16⟩))
 
+/-- equivalence branches that do integer arithmetic on the raw (integer) input on the copying routes
+    — `(equivalence, from-dimension, to-dimension, ufunc)`, the literal exclusion list of
+    `no_integer_arithmetic_on_input_partial`, one-to-one with the `known`
+    `value|to_equivalent|…|integer-arithmetic` findings: `x * x` in the sound-speed and Lorentz
+    formulas and `x ** 4` in the Stefan–Boltzmann law are evaluated in the integer type and wrap
+    around (int16 300 m/s squared is not 90000) -/
+def knownIntegerSteps : List (String × String × String × String) := [
+  ("sound_speed", "(length)/(time)", "(temperature)", "multiply"),
+  ("sound_speed", "(length)/(time)", "(length)**2*(mass)/(time)**2", "multiply"),
+  ("lorentz", "1", "(length)/(time)", "multiply"),
+  ("effective_temperature", "(temperature)", "(mass)/(time)**3", "power")]
+
 end Unyt.Ref.C17
